@@ -23,6 +23,10 @@ def run(chk, tier):
         M = factsmod.load(cfg, crate='unimock_macros')
         chk.ob('R13.1', 'unimock_macros forbids unsafe code', M.unsafe_code_lint == 'Forbid', config=cfg, site='lint:unimock_macros', what='lint %s' % M.unsafe_code_lint, found=M.unsafe_code_lint, expected='Forbid')
         push_node(chk, F, 'R13.2', cfg)
+        # R13.7 the delegation helper is cached in its own cell for every receiver kind - never stored among (or in place of) the values the
+        # instance has lent, which live until the instance is verified or dropped (shared with C15)
+        from props import c15 as c15_
+        c15_.delegator_runtime(chk, F, 'R13.7', cfg)
         chain_writers(chk, F, 'R13.3', cfg)
         from props import ctor
         ctor.push_value_mut(chk, F, 'R13.2.mut', cfg)
